@@ -58,8 +58,8 @@ def _round(mid):
         return "hand-written"
     n = int(s[1:])
     if s.startswith("M"):
-        return {1: "2 (blind)", 2: "2 (blind)", 3: "3 (blind)", 4: "3 (blind)", 5: "4 (blind)", 6: "4 (blind)", 7: "5 (blind)", 8: "5 (blind)", 9: "6 (blind)", 10: "6 (blind)", 11: "7 (blind)"}.get(n, "?")
-    return {1: "2 (blind)", 2: "2 (blind)", 3: "2 (blind)", 4: "3 (blind)", 5: "3 (blind)", 6: "3 (blind)", 7: "4 (blind)", 8: "4 (blind)", 9: "4 (blind)", 10: "5 (blind)", 11: "5 (blind)", 12: "5 (blind)", 13: "6 (blind)", 14: "6 (blind)", 15: "6 (blind)", 16: "7 (blind)", 17: "7 (blind)"}.get(n, "?")
+        return {1: "2 (blind)", 2: "2 (blind)", 3: "3 (blind)", 4: "3 (blind)", 5: "4 (blind)", 6: "4 (blind)", 7: "5 (blind)", 8: "5 (blind)", 9: "6 (blind)", 10: "6 (blind)", 11: "7 (blind)", 18: "8 (blind)", 19: "8 (blind)"}.get(n, "?")
+    return {1: "2 (blind)", 2: "2 (blind)", 3: "2 (blind)", 4: "3 (blind)", 5: "3 (blind)", 6: "3 (blind)", 7: "4 (blind)", 8: "4 (blind)", 9: "4 (blind)", 10: "5 (blind)", 11: "5 (blind)", 12: "5 (blind)", 13: "6 (blind)", 14: "6 (blind)", 15: "6 (blind)", 16: "7 (blind)", 17: "7 (blind)", 18: "8 (blind)", 19: "8 (blind)"}.get(n, "?")
 
 
 def detection_block():
